@@ -677,7 +677,8 @@ def run_C05(ctx):
     return vlib.finish(ctx, confirm_all)
 
 
-SYNTAX_CONSTS = "CONSTANT PathTable <- MCPathTable\nCONSTANT NameTable <- MCNameTable\nCONSTANT IdTable <- MCIdTable\n"
+SYNTAX_CONSTS = ("CONSTANT PathTable <- MCPathTable\nCONSTANT NameTable <- MCNameTable\nCONSTANT IdTable <- MCIdTable\n"
+                 "CONSTANT WordTable <- MCWordTable\n")
 vlib.TRACE_CFG["Trace_Parse"] = SYNTAX_CONSTS
 
 
